@@ -353,6 +353,22 @@ func (ln *vfC05LiveNode) handler(nc *vfNodeConn, f *vfFrame, q *vfRequest) bool 
 // heartbeat positions the clock that matters is the driver's (first heartbeat a second after a
 // connection is set up): the case waits until the node has SEEN that request (at most max) and
 // then a little for the driver to digest the answer.
+// vfC05PagedScanner reads the paged statement through Iter.Scanner with n raw destinations per row.
+func vfC05PagedScanner(s *Session, n int) string {
+	sc := s.Query(vfC05StmtPaged, 1).PageSize(2).Iter().Scanner()
+	dests := make([]interface{}, n)
+	for i := range dests {
+		dests[i] = &vfC05RawDest{}
+	}
+	for i := 0; sc.Next() && i < vfC05RowCap; i++ {
+		_ = sc.Scan(dests...) // (an error invalidates this row only)
+	}
+	if err := sc.Err(); err != nil {
+		return "error"
+	}
+	return "value"
+}
+
 func vfC05LiveWaits(pos string) (fixed, max time.Duration) {
 	switch pos {
 	case "pool.heartbeat", "ctl.conn_heartbeat", "ctl.heartbeat":
@@ -399,6 +415,9 @@ func vfC05RunLive(in *vfC05Input) (res vfC05Result) {
 		cfg.Authenticator = vfC05Chain{inner: pa}
 	case "keyspace":
 		cfg.Keyspace = "ks1"
+	case "tokenaware":
+		// the policy asks Query.GetRoutingKey (-> Session.routingKeyInfo -> PREPARE) before the request is sent
+		cfg.PoolConfig.HostSelectionPolicy = TokenAwareHostPolicy(RoundRobinHostPolicy())
 	}
 
 	var s *Session
@@ -443,6 +462,62 @@ func vfC05RunLive(in *vfC05Input) (res vfC05Result) {
 			}
 			return "value"
 		}},
+		// the routing key, as a token-aware policy (or the application) asks for it
+		{"app-routing-key", func() string {
+			if _, err := s.Query(vfC05StmtPlain, 1).GetRoutingKey(); err != nil {
+				return "error"
+			}
+			return "value"
+		}},
+		{"app-batch-routing-key", func() string {
+			b := s.NewBatch(LoggedBatch)
+			b.Query("INSERT INTO ks1.batchtbl (k) VALUES (?)", 1)
+			if _, err := b.GetRoutingKey(); err != nil {
+				return "error"
+			}
+			return "value"
+		}},
+		// lightweight transactions: the result's first column is expected to be the boolean [applied]
+		{"app-scancas", func() string {
+			var prev int
+			if _, err := s.Query("UPDATE ks1.t SET a = ? WHERE k = ? IF a = ?", 1, 2, 3).ScanCAS(&prev); err != nil {
+				return "error"
+			}
+			return "value"
+		}},
+		{"app-mapscancas", func() string {
+			if _, err := s.Query("UPDATE ks1.t SET a = ? WHERE k = ? IF a = ?", 1, 2, 3).MapScanCAS(map[string]interface{}{}); err != nil {
+				return "error"
+			}
+			return "value"
+		}},
+		{"app-batchcas", func() string {
+			b := s.NewBatch(LoggedBatch)
+			b.Query("UPDATE ks1.batchtbl SET a = ? WHERE k = ? IF a = ?", 1, 2, 3)
+			var prev int
+			_, iter, err := s.ExecuteBatchCAS(b, &prev)
+			if iter != nil {
+				for i := 0; iter.Scan(&prev) && i < vfC05RowCap; i++ {
+				}
+				iter.Close()
+			}
+			if err != nil {
+				return "error"
+			}
+			return "value"
+		}},
+		{"app-mapbatchcas", func() string {
+			b := s.NewBatch(LoggedBatch)
+			b.Query("UPDATE ks1.batchtbl SET a = ? WHERE k = ? IF a = ?", 1, 2, 3)
+			_, iter, err := s.MapExecuteBatchCAS(b, map[string]interface{}{})
+			if iter != nil {
+				iter.Close()
+			}
+			if err != nil {
+				return "error"
+			}
+			return "value"
+		}},
 		// a paged result read the way the first page looks (one int column)
 		{"app-paged-scan", func() string {
 			iter := s.Query(vfC05StmtPaged, 1).PageSize(2).Iter()
@@ -468,6 +543,10 @@ func vfC05RunLive(in *vfC05Input) (res vfC05Result) {
 			}
 			return "value"
 		}},
+		// the application knows how many columns ITS statement selects (2, 3): it passes that many
+		// destinations whatever the first page's metadata said, and goes on after a row it could not scan
+		{"app-paged-scanner-2dests", func() string { return vfC05PagedScanner(s, 2) }},
+		{"app-paged-scanner-3dests", func() string { return vfC05PagedScanner(s, 3) }},
 		{"app-batch", func() string {
 			b := s.NewBatch(LoggedBatch)
 			b.Query("INSERT INTO ks1.t (k) VALUES (1)")
